@@ -5,17 +5,17 @@ import os
 COMPONENTS = {
     "C13": {"real": ["sempler.lganm", "sempler.anm", "sempler.normal_distribution", "sempler.generators",
                      "sempler.utils", "sempler.noise", "numpy global RandomState", "numpy Generator (PCG64)"],
-            "simulated": ["OS entropy behind numpy.random.default_rng(None)", "caller processes (clients)",
+            "simulated": ["the name np inside the library's modules (pass-through proxy: every numpy function call is a fault point, seam np.*)", "application threads that make the calls (one call at a time)", "every clock of the standard library (counter)", "OS entropy behind numpy.random.default_rng(None)", "caller processes (clients)",
                           "np.random.multivariate_normal failure seam", "user callables that fail"],
             "stub": []},
     "C14": {"real": ["sempler.lganm", "sempler.anm", "sempler.normal_distribution", "sempler.utils",
                      "sempler.generators", "numpy"],
-            "simulated": ["OS entropy behind numpy.random.default_rng(None)", "caller-owned buffers and their mutation",
+            "simulated": ["the name np inside the library's modules (pass-through proxy: every numpy function call is a fault point, seam np.*)", "application threads that make the calls (one call at a time)", "every clock of the standard library (counter)", "OS entropy behind numpy.random.default_rng(None)", "caller-owned buffers and their mutation",
                           "np.linalg.* / np.random.multivariate_normal failure seams", "user callables that fail"],
             "stub": ["sempler.plot is not exercised (matplotlib absent)"]},
     "C19": {"real": ["sempler.semi (DRFNet, BayesianNetwork, _bootstrap)", "drf.code (bundled wrapper)",
                      "sempler.utils", "pandas", "numpy"],
-            "simulated": ["OS entropy behind numpy.random.default_rng(None)", "time.time on verbose paths"],
+            "simulated": ["the name np inside the library's modules (pass-through proxy: every numpy function call is a fault point, seam np.*)", "application threads that make the calls (one call at a time)", "every clock of the standard library (counter)", "OS entropy behind numpy.random.default_rng(None)", "time.time on verbose paths"],
             "stub": ["rpy2 (fake package on sys.path)", "R process", "R package drf (deterministic k-nearest-row forest)"]},
 }
 
